@@ -70,7 +70,7 @@ func runC14(p *core.Program, r *core.Report) {
 	swappedArgsLint(p, r, "C14.args", []string{"util/hll"})
 	r.Rule("C14.hash-width", "a hash is offered to the index/rank routine of its own width: no widened hash (uint64 of a 32-bit value) reaches a routine that addresses by the top bits", 1)
 	c14HashWidth(p, r)
-	r.Rule("C14.shifts", "no constant shift is as wide as its operand (the hash's high half is taken from the 64-bit value, not from a narrowed copy)", 3)
+	r.Rule("C14.shifts", "no constant shift is as wide as its operand (the hash's high half is taken from the 64-bit value, not from a narrowed copy)", 1)
 	shiftWidthLint(p, r, "C14.shifts", []string{"util/hll"})
 	r.Rule("C14.widen", "estimator arithmetic widens before it multiplies: no float64/int64 conversion of a product or shift computed in a 32-bit integer type (m*m wraps at log2m = 16)", 1)
 	c14Widen(p, r)
